@@ -1,0 +1,104 @@
+//! Verification hooks (cargo feature `verif`, off by default).
+//!
+//! Thread-local observation sinks only: the program pushes plain records into a
+//! buffer that an external harness drains. Nothing here feeds back into program
+//! logic; with the feature off this module does not exist.
+use std::cell::RefCell;
+
+/// Snapshot of the adaptive-fee manager at the moment a swap step was priced.
+#[derive(Clone, Debug, Default)]
+pub struct FeeView {
+    pub adaptive: bool,
+    pub tick_group_index: i32,
+    pub volatility_accumulator: u32,
+    pub volatility_reference: u32,
+    pub tick_group_index_reference: i32,
+    pub last_reference_update_timestamp: u64,
+    pub last_major_swap_timestamp: u64,
+}
+
+#[derive(Clone, Debug, Default)]
+pub struct StepRecord {
+    pub sqrt_price_before: u128,
+    pub sqrt_price_target: u128,
+    pub bounded_sqrt_price_target: u128,
+    pub next_tick_index: i32,
+    pub next_tick_sqrt_price: u128,
+    pub total_fee_rate: u32,
+    pub liquidity: u128,
+    pub amount_remaining_before: u64,
+    pub amount_in: u64,
+    pub amount_out: u64,
+    pub next_price: u128,
+    pub fee_amount: u64,
+    /// `(tick index, initialized, pool liquidity after the crossing)` when the step ended on `next_tick_index`.
+    pub crossed: Option<(i32, bool, u128)>,
+    pub tick_index_after: i32,
+    pub adaptive_fee_update_skipped: bool,
+    pub protocol_fee_after: u64,
+    pub fee_growth_global_input_after: u128,
+    pub fee: FeeView,
+}
+
+#[derive(Clone, Debug)]
+pub enum Event {
+    SwapBegin {
+        amount: u64,
+        sqrt_price_limit: u128,
+        amount_specified_is_input: bool,
+        a_to_b: bool,
+        timestamp: u64,
+        sqrt_price: u128,
+        tick_current_index: i32,
+        liquidity: u128,
+    },
+    SwapStep(StepRecord),
+    LogData(Vec<Vec<u8>>),
+}
+
+thread_local! {
+    static SINK: RefCell<Option<Vec<Event>>> = const { RefCell::new(None) };
+}
+
+/// Start recording on this thread (drops anything recorded before).
+pub fn start() {
+    SINK.with(|s| *s.borrow_mut() = Some(Vec::new()));
+}
+
+/// Stop recording on this thread and return what was recorded.
+pub fn take() -> Vec<Event> {
+    SINK.with(|s| s.borrow_mut().take().unwrap_or_default())
+}
+
+pub fn push(e: Event) {
+    SINK.with(|s| {
+        if let Some(v) = s.borrow_mut().as_mut() {
+            v.push(e)
+        }
+    });
+}
+
+pub fn log_data(data: &[&[u8]]) {
+    push(Event::LogData(data.iter().map(|d| d.to_vec()).collect()));
+}
+
+pub fn fee_view(m: &crate::manager::fee_rate_manager::FeeRateManager) -> FeeView {
+    use crate::manager::fee_rate_manager::FeeRateManager;
+    match m {
+        FeeRateManager::Static { .. } => FeeView::default(),
+        FeeRateManager::Adaptive {
+            tick_group_index,
+            adaptive_fee_variables,
+            ..
+        } => FeeView {
+            adaptive: true,
+            tick_group_index: *tick_group_index,
+            volatility_accumulator: adaptive_fee_variables.volatility_accumulator,
+            volatility_reference: adaptive_fee_variables.volatility_reference,
+            tick_group_index_reference: adaptive_fee_variables.tick_group_index_reference,
+            last_reference_update_timestamp: adaptive_fee_variables
+                .last_reference_update_timestamp,
+            last_major_swap_timestamp: adaptive_fee_variables.last_major_swap_timestamp,
+        },
+    }
+}
